@@ -52,6 +52,16 @@ UK == << Fe("F1", <<>>, <<"run">>, <<Sc("S1", <<"retry(1)">>, <<"run">>)>>,
          Fe("F2", <<"allow.skipped">>, <<>>, <<Sc("S3", <<>>, <<"run">>)>>, <<>>),
          Fe("F3", <<>>, <<>>, <<Sc("S4", <<"allow.skipped">>, <<"run">>)>>, <<>>) >>
 
+\* combinators (C13): every placement of @allow.skipped on feature / rule / scenario
+UKT == << Fe("F1", <<>>, <<>>, <<Sc("S1", <<>>, <<"run">>), Sc("S2", <<"allow.skipped">>, <<"run">>)>>,
+             <<Ru("R1", <<>>, <<>>, <<Sc("S3", <<>>, <<"run">>), Sc("S4", <<"allow.skipped">>, <<"run">>)>>),
+               Ru("R2", <<"allow.skipped">>, <<>>, <<Sc("S5", <<>>, <<"run">>), Sc("S6", <<"allow.skipped">>, <<"run">>)>>)>>),
+          Fe("F2", <<"allow.skipped", "other">>, <<>>, <<Sc("S7", <<>>, <<"run">>)>>,
+             <<Ru("R3", <<"other">>, <<>>, <<Sc("S8", <<"other">>, <<"run">>)>>),
+               Ru("R4", <<"allow.skipped">>, <<>>, <<Sc("S9", <<>>, <<"run">>)>>)>>),
+          Fe("F3", <<"other">>, <<>>, <<Sc("S10", <<"other">>, <<"run">>)>>,
+             <<Ru("R5", <<"other">>, <<>>, <<Sc("S11", <<>>, <<"run">>)>>)>>) >>
+
 \* filtering (C15): tags a, b, c on all three levels
 UF == << Fe("F1", <<"a">>, <<"run">>, <<Sc("S1", <<"b">>, <<"run">>), Sc("S2", <<>>, <<"run">>)>>,
             <<Ru("R1", <<"c">>, <<"run">>, <<Sc("S3", <<"b">>, <<"run">>), Sc("S4", <<>>, <<"run">>)>>),
